@@ -149,7 +149,7 @@ func (s SVal) String() string { return fmt.Sprintf("%s/%s:%x", s.Class, s.Door, 
 func genScalar(t *rapid.T, gi *GroupInfo, label string) SVal {
 	v, cls := genBig(t, gi.Order, label)
 	g := gi.G
-	doors := []string{"setbytes", "unmarshal", "arith"}
+	doors := []string{"setbytes", "unmarshal", "arith", "setbytes-unreduced"}
 	if v.IsInt64() {
 		doors = append(doors, "setint64")
 	}
@@ -158,6 +158,23 @@ func genScalar(t *rapid.T, gi *GroupInfo, label string) SVal {
 	switch door {
 	case "setbytes":
 		s = scalarFromBig(g, v)
+	case "setbytes-unreduced":
+		// SetBytes reduces: the same residue entered as v + k*q, at the scalar's own length when that
+		// fits (k = 1, or the largest k that fits) and one byte longer otherwise.  Everything that
+		// is done with the scalar afterwards - Equal, encodings, arithmetic - is done with the residue.
+		le := scalarLE(g.Scalar())
+		n := g.ScalarLen()
+		room := new(big.Int).Sub(new(big.Int).Lsh(big1, uint(8*n)), v)
+		kmax := new(big.Int).Div(new(big.Int).Sub(room, big1), gi.Order)
+		k := big.NewInt(1)
+		if kmax.Sign() > 0 && rapid.Bool().Draw(t, label+".kmax") {
+			k = kmax
+		}
+		w := new(big.Int).Add(v, new(big.Int).Mul(k, gi.Order))
+		if kmax.Sign() == 0 {
+			n++
+		}
+		s = g.Scalar().SetBytes(bigToBytes(w, n, le))
 	case "setint64":
 		s = g.Scalar().SetInt64(v.Int64())
 	case "unmarshal":
